@@ -343,7 +343,10 @@ class Check:
         for k in sorted(set(self.known_hits)):
             print('KNOWN-FINDING: property=%s %s' % (self.pid, k))
         if self.violations:
-            for path, what in self.violations:
+            for i, (path, what) in enumerate(self.violations):
+                if not path:
+                    # every reported violation has a replay file (here: the statement that failed and how to re-run it)
+                    path = self.write_replay('violation_%d' % i, {'what': str(what), 'how_to_reproduce': 'python3-vt checks/%s.py %s' % (self.pid, self.tier)})
                 print('VIOLATION property=%s replay=%s' % (self.pid, path))
                 print('  ' + str(what))
             print('%s: %d/%d obligations discharged, %d violation(s), %.1fs' % (
